@@ -267,9 +267,14 @@ func comparePair(c pairCase, live func(string) bool, quiet bool) error {
 	var rrs []dns.RR
 	var keys, nkeys, hkeys []string
 	lenient := false
+	param, refusedB := "", false
+	if c.How == howSvcParam {
+		param = svcParamOf(c.A, c.B)
+	}
 	for i, r := range recs {
 		rr, err := wireBorn(r)
 		if err != nil && i > 0 && strings.HasPrefix(c.How, "enc:") {
+			refusedB = refusedB || i == 1
 			// the decoder refuses this spelling: nothing was obtained from the wire; the other records of
 			// the case are still compared (the refused one is replaced by the first)
 			if !quiet {
@@ -340,6 +345,12 @@ func comparePair(c pairCase, live func(string) bool, quiet bool) error {
 		}
 		if strings.HasPrefix(c.How, "enc:") {
 			pbt.Sample("octets:"+c.How, fmt.Sprintf("%x  |  %x", wa, wb))
+		}
+		if param != "" && refusedB {
+			pbt.Class("svcparam-refused:" + param)
+		} else if param != "" {
+			pbt.Class("svcparam-accepted:" + param)
+			pbt.Sample("svcparam-accepted:"+param, rrs[1].String())
 		}
 	}
 	if unpackable {
@@ -783,6 +794,7 @@ type dedupItem struct {
 	Base      int
 	TTL       uint32
 	UpperMask uint64 // which owner letters are upper-cased
+	EscMask   uint64 `json:",omitempty"` // which owner letters are written with a backslash in front (\A): the record is program-built with that spelling
 	SameAs    int    `json:",omitempty"` // > 0: not a new record but the very record (same pointer) at position SameAs-1 again
 }
 
@@ -802,6 +814,37 @@ func ownerVariant(n wm.Name, mask uint64) wm.Name {
 		}
 	}
 	return o
+}
+
+// idEscCase: known finding - Dedup does not fold an owner letter that is written with a backslash in front.
+const idEscCase = "dedup-escaped-letter-case"
+
+// escapedOwner writes the owner in presentation form as the library prints it, except that the letters
+// selected by mask (counted as ownerVariant counts them) get a backslash in front: a legal spelling of
+// the same octet (RFC 1035 5.1), kept as written by the zone parser and by String().
+func escapedOwner(n wm.Name, mask uint64) string {
+	if len(n) == 0 {
+		return "."
+	}
+	var sb strings.Builder
+	k := uint(0)
+	for _, l := range n {
+		for _, c := range l {
+			if c >= 'a' && c <= 'z' || c >= 'A' && c <= 'Z' {
+				if mask>>(k%64)&1 == 1 {
+					sb.WriteByte('\\')
+					sb.WriteByte(c)
+				} else {
+					sb.WriteByte(c)
+				}
+				k++
+				continue
+			}
+			sb.WriteString(wm.EscLabel([]byte{c}))
+		}
+		sb.WriteByte('.')
+	}
+	return sb.String()
 }
 
 // group key as the statement defines it: the record's text with the TTL removed and the owner lower-cased
@@ -824,8 +867,12 @@ func textKey(rr dns.RR) string {
 	return string(owner) + s[i+1+j:]
 }
 
-func checkDedup(c dedupCase) error {
+func checkDedup(c dedupCase) error { return dedupOracle(c, false) }
+
+// dedupOracle: quiet suppresses the statistics (probes).
+func dedupOracle(c dedupCase, quiet bool) error {
 	var in []dns.RR
+	escaped := false
 	shared := false
 	for _, it := range c.Items {
 		if it.Base >= len(c.Bases) {
@@ -842,6 +889,12 @@ func checkDedup(c dedupCase) error {
 		rr, err := wm.ToLib(r)
 		if err != nil {
 			return nil
+		}
+		if it.EscMask != 0 {
+			if s := escapedOwner(r.Name, it.EscMask); s != rr.Header().Name {
+				rr.Header().Name = s
+				escaped = true
+			}
 		}
 		in = append(in, rr)
 	}
@@ -879,9 +932,15 @@ func checkDedup(c dedupCase) error {
 			big = true
 		}
 	}
-	pbt.Note([]byte(strings.Join(keys, "\n")+fmt.Sprint(c.Items)), big, fmt.Sprintf("groups=%d", len(groups)), fmt.Sprintf("records=%d", min(len(in), 12)))
-	if shared {
-		pbt.Class("same-record-listed-twice")
+	if !quiet {
+		pbt.Note([]byte(strings.Join(keys, "\n")+fmt.Sprint(c.Items)), big, fmt.Sprintf("groups=%d", len(groups)), fmt.Sprintf("records=%d", min(len(in), 12)))
+		if shared {
+			pbt.Class("same-record-listed-twice")
+		}
+		if escaped {
+			pbt.Class("owner-letter-escaped")
+			pbt.Sample("owner-letter-escaped", in[len(in)-1].String())
+		}
 	}
 	orig := append([]dns.RR{}, in...)
 	var scratch map[string]dns.RR
@@ -898,7 +957,9 @@ func checkDedup(c dedupCase) error {
 			}
 		}
 		dns.Dedup(prior, scratch)
-		pbt.Class("scratch-map-reused")
+		if !quiet {
+			pbt.Class("scratch-map-reused")
+		}
 	}
 	out := dns.Dedup(in, scratch)
 	if len(out) != len(order) {
@@ -942,6 +1003,14 @@ func genDedup(t *rapid.T) dedupCase {
 		if i > 0 && rapid.IntRange(0, 7).Draw(t, "again") == 0 {
 			it.SameAs = rapid.IntRange(1, i).Draw(t, "sameas")
 		}
+		// the owner spelled with a backslash in front of some letters (a program-built or zone-file name;
+		// String() keeps the spelling): same text up to letter case = same group, other spelling = other text
+		it.EscMask = rapid.SampledFrom([]uint64{0, 0, 0, 0, 1, ^uint64(0), 0x5555555555555555, 2}).Draw(t, "escmask")
+		if it.EscMask&it.UpperMask != 0 && pbt.Known(idEscCase) {
+			// known finding: an escaped letter is not folded. The escaped letters stay, all in lower case.
+			it.UpperMask &^= it.EscMask
+			pbt.Excluded(idEscCase)
+		}
 		c.Items = append(c.Items, it)
 	}
 	c.OwnMap = rapid.Bool().Draw(t, "ownmap")
@@ -977,6 +1046,11 @@ func init() {
 			return pbt.Errf("Dedup with a scratch map that served earlier calls: %v (want one record a. with TTL 50)", out)
 		}
 		return nil
+	})
+	pbt.Probe(idEscCase, func() error {
+		// \Abc. 5 IN A 192.0.2.1 and \abc. 7 IN A 192.0.2.1: one group (the texts differ in the case of one owner letter)
+		a := wm.Rec{Name: wm.MustName("abc."), Type: wm.TA, Class: 1, Fields: []wm.Field{{K: wm.IPv4, B: []byte{192, 0, 2, 1}}}}
+		return dedupOracle(dedupCase{Bases: []wm.Rec{a}, Items: []dedupItem{{Base: 0, TTL: 5, UpperMask: 1, EscMask: 1}, {Base: 0, TTL: 7, EscMask: 1}}}, true)
 	})
 	pbt.Register(pbt.Sub[pairCase]{Name: "isduplicate", Weight: 20, Gen: genPair, Check: checkPair})
 	pbt.RegisterEnum(pbt.Enum[pairCase]{Name: "every-field-of-every-type", Exhaustive: true, Each: eachFieldChange, Check: checkPair})
